@@ -1028,3 +1028,72 @@ def c19(run, selftest=True):
         "(T, U, a non-parameter, ::T, m::T, T::Item, a macro, !, _): TLC checks the transcribed recursion against the role-based declarative definition for 4 query sets x 2 purposes and for lifetimes; every term is "
         "printed, parsed and analysed by the real code (uses_*, collect_*). Bounds: 231 struct / enum receivers over skip flags on fields and variants x 6 derives: impl generics, where-clause and the set of "
         "parameters that received the conversion bound. A case is one type term / one receiver.")
+
+
+# =====================================================================================================
+# C20 - every emitted implementation compiles and is self-contained
+# =====================================================================================================
+
+@plan("C20")
+def c20(run, selftest=True):
+    import re
+    import subprocess
+    q = run.tier == "quick"
+    run.build()           # also compiles the whole generated receiver corpus (C01/C09/C16 option space) against the working tree
+    outs = []
+    for fo in ("field", "cont", "enum"):
+        res = run.tlc("MC_DeriveOptions", DO_CFG % DO_FOCUS[fo], "c20_" + fo, workers=8, timeout=3000)
+        run.require_tlc_ok(res, "DeriveOptions (%s)" % fo)
+        outs.append(res["out"])
+    crate = os.path.join(vlib.VERIF, "c20crate")
+    index = run.path("c20_index.json")
+    p = subprocess.run(["python3", os.path.join(vlib.VERIF, "tools", "gen_c20.py"), "--seed", str(vlib.seed()), "--max", str(360 if q else 4500),
+                        "--out", os.path.join(crate, "src", "lib.rs"), "--index", index] + outs, stdout=subprocess.PIPE, stderr=subprocess.PIPE, text=True)
+    if p.returncode != 0:
+        raise ToolError("gen_c20 failed: " + p.stderr[-2000:])
+    info = json.loads(p.stdout.strip().splitlines()[-1])
+    for o in outs:
+        os.remove(o)
+    if not os.path.exists(os.path.join(crate, "Cargo.lock")):
+        import shutil
+        shutil.copy("/repo/Cargo.lock", os.path.join(crate, "Cargo.lock"))
+    b = subprocess.run(["cargo", "build", "--offline", "--message-format=short"], cwd=crate, env=dict(os.environ, CARGO_NET_OFFLINE="true"),
+                       stdout=subprocess.PIPE, stderr=subprocess.STDOUT, text=True)
+    idx = json.load(open(index))
+    failing = {}
+    other_errors = []
+    for line in b.stdout.splitlines():
+        m = re.match(r"src/lib.rs:(\d+):\d+: (error.*)", line)
+        if m:
+            ln = int(m.group(1))
+            hit = next((e for e in idx if e["from"] <= ln <= e["to"]), None)
+            if hit:
+                failing.setdefault(hit["m"], (hit, []))[1].append(m.group(2)[:300])
+            else:
+                other_errors.append(line)
+        elif line.startswith("error") and "could not compile" not in line and "aborting" not in line:
+            other_errors.append(line)
+    if b.returncode != 0 and not failing:
+        raise ToolError("the C20 crate failed to build for a reason not attributable to a declaration:\n" + "\n".join(b.stdout.splitlines()[-30:]))
+    for mth, (e, errs) in failing.items():
+        first_attr = e["source"].split("\n")[2] if e["source"].count("\n") > 2 else ""
+        key = "c20:%s:%s:%s" % (e["derive"], e["shape"], " ".join(e["source"].split())[:400])
+        run.violation(key, "the derive accepted this declaration but the emitted implementation does not compile: " + "; ".join(errs[:3]),
+                      {"module": "c20", "case": {"derive": e["derive"], "shape": e["shape"], "source": e["source"]}, "why": errs[:6]})
+    run.evaluations += info["declarations"]
+    run.replayed += info["declarations"]
+    run.extra["distinct_cases"] = info["declarations"]
+    run.extra["compiled_declarations"] = info["declarations"]
+    run.extra["declarations_failing_to_compile"] = len(failing)
+    for e in idx[:: max(1, len(idx) // 3)][:3]:
+        run.samples.append({"module": "c20", "case": {"derive": e["derive"], "shape": e["shape"], "source": e["source"]}})
+    run.exhaustive = False
+    run.assumptions = ["rustc is the oracle; the specification supplies the set of accepted declarations (well-formed per DeriveOptions.tla, enumerated by TLC) and the harness materialises them with field types and "
+                       "callables that satisfy the documented trait requirements",
+                       "the generated crate imports nothing but `darling` (paths written out) and `syn` for the types of magic members"]
+    return run.finish(
+        "exploration",
+        "declarations accepted by the specification (TLC enumerates the well-formed ones of the field / container / variant option spaces of DeriveOptions.tla; a seeded sample of 360 (quick) / 4500 (thorough) is taken) are "
+        "written out as real receivers of one crate with hostile user-visible names (raw keyword identifiers, names equal to darling's option words and to its generated locals without the `__` prefix, variants named "
+        "Ok / Err / Some / None / Default ...), user callables as paths, strings and closures, and compiled offline against the working tree; every rustc error is attributed to its declaration. The generated "
+        "receiver corpus of C01/C09/C16 (about 350 more derives) is compiled by the same run. A case is one declaration; distinct by construction.")
